@@ -25,6 +25,7 @@ documented preconditions), they never call symmray's `matches`/`check`.
 
 import json
 import operator
+import traceback
 
 import numpy as np
 
@@ -148,6 +149,23 @@ def strip_fill(obj):
 
 def fingerprint(prog, extra=None):
     return json.dumps([strip_fill(prog), extra], sort_keys=True, default=str)
+
+
+def safe_case(contract, tag, make):
+    """Run one case builder of a driver's gen_cases.  A crash of the *generator* (harness
+    bug) becomes a descriptor whose check raises - it is then reported as a checker crash
+    of this one case instead of aborting the whole driver run."""
+    try:
+        d = make()
+    except Exception:
+        d = {"contract": contract, "gen_crash": traceback.format_exc()[-1500:], "gen": tag}
+    if d is not None:
+        yield d
+
+
+def raise_if_gen_crash(d):
+    if "gen_crash" in d:
+        raise RuntimeError("the case generator crashed:\n" + d["gen_crash"])
 
 
 def build_vector(spec):
@@ -1125,7 +1143,7 @@ class Gen:
         ix = x.indices[axis]
         rng = self.rng
         items = list(ix.chargemap.items())
-        keep = [it for it in items if rng.random() < 0.8] or [items[0]]
+        keep = [it for it in items if rng.random() < 0.8] or items[:1]
         return {"kind": "vector", "blocks": [[jcharge(c), int(d)] for c, d in keep], "fill_seed": int(rng.integers(0, 2**31 - 1))}
 
     def g_multiply_diagonal(self, i):
